@@ -161,6 +161,25 @@ pub fn relabel(plan: &Plan, rng: &mut Rng) -> (Plan, usize) {
     (p, moved)
 }
 
+/// Registration attempts that failed (and were caught) registered nothing: without them the same
+/// systems are registered in the same order.
+pub fn strip_failed(plan: &Plan) -> (Plan, usize) {
+    fn go(p: &mut Plan, n: &mut usize) {
+        let before = p.items.len();
+        p.items.retain(|it| !matches!(it, Item::Failed(_)));
+        *n += before - p.items.len();
+        for it in p.items.iter_mut() {
+            if let Item::Batch(b) = it {
+                go(&mut b.inner, n);
+            }
+        }
+    }
+    let mut p = plan.clone();
+    let mut n = 0;
+    go(&mut p, &mut n);
+    (p, n)
+}
+
 pub fn permute_lists(plan: &Plan, rng: &mut Rng) -> (Plan, usize) {
     let mut changed = 0usize;
     let p = map_plan(plan, &mut |it| {
@@ -224,7 +243,14 @@ fn case(rng: &mut Rng, rep: &mut Report, case_no: u64, dump: bool) {
     let check = |name: &str, variant: &Plan, changed: usize, rep: &mut Report| {
         rep.metric(&format!("variant_{}", name), 1);
         rep.evaluations += 1;
-        match layout_of(variant) {
+        // "fresh thread": a thread that has never built anything (no per-thread leftovers)
+        let built = if name == "fresh_thread" {
+            let v = variant.clone();
+            std::thread::spawn(move || layout_of(&v)).join().unwrap_or_else(|_| Err("the building thread panicked".to_string()))
+        } else {
+            layout_of(variant)
+        };
+        match built {
             Ok(l) => {
                 if l.hash() != h0 {
                     rep.violation(
@@ -241,6 +267,13 @@ fn case(rng: &mut Rng, rep: &mut Report, case_no: u64, dump: bool) {
         }
     };
     check("rebuild", &plan, 0, rep);
+    if case_no % 4 == 0 {
+        check("fresh_thread", &plan, 1, rep);
+    }
+    let (v, nf) = strip_failed(&plan);
+    if nf > 0 {
+        check("without_the_failed_attempts", &v, nf, rep);
+    }
     let named = {
         let mut n = 0;
         plan.walk(&mut |it, _| match it {
